@@ -1,19 +1,20 @@
-SPECIFICATION TSpec
+SPECIFICATION Spec
 CONSTANTS
-  Guids = {"g1", "g2", "g3", "g4"}
-  RuleIds = {"", "r0", "r1", "r2", "r3"}
+  Guids = {"g1"}
+  RuleIds = {"", "r1"}
   Versions = {"1.0", "2.0"}
-  ModeOf <- TModeOf
+  ModeOf <- MCModeOf
   RulesKeyedOnIdOnly = FALSE
   IdsIdentifyContent = FALSE
   InitScenarios = {"fresh"}
-  InitDocs = {}
-  MaxReconf = 0
-  MaxFaults = 0
+  InitDocs <- DocsEmptyId
+  MaxReconf = 3
+  MaxFaults = 1
   MaxCrash = 0
   MaxDamage = 0
   MaxNotify = 0
   FsFaults = FALSE
   AcquireMayRepeat = TRUE
-POSTCONDITION Accepted
+INVARIANTS TypeOK Converged NoKeyWhenDisabled
+PROPERTIES FailedPollChangesNothing
 CHECK_DEADLOCK FALSE
